@@ -42,15 +42,14 @@ def gmSelField (a0 a1raw : Str) : Str := if a1raw.isEmpty then a0.drop 1 else a1
 
 /-- a link line after field splitting, before population from the file system:
     `a0` = first field (type + description), `a1raw` = second field, optional host / port fields.
-    `none` = the Python raises (`selector[0]` / `args[0][0]` on an empty string, `int()`). -/
+    `none` = the Python raises (`int()` on a port that is no number). -/
 def gmLinkRaw (base a0 a1raw : Str) (hostF portF : Option Str) : Option Entry :=
-  if (gmSelField a0 a1raw).isEmpty then none
-  else
-    match a0.head?, gmPort portF with
-    | some t, some port =>
-      some { selector := gmSelector base (gmSelField a0 a1raw), type := some [t], name := some (a0.drop 1),
-             host := gmHost hostF, port := port }
-    | _, _ => none
+  -- (a line with neither description nor selector, `1<TAB>`, links to the directory itself: `base ++ "/"`)
+  match a0.head?, gmPort portF with
+  | some t, some port =>
+    some { selector := gmSelector base (gmSelField a0 a1raw), type := some [t], name := some (a0.drop 1),
+           host := gmHost hostF, port := port }
+  | _, _ => none
 
 /-- links on this server are filled in from the file system when the authored selector is a path
     below the root (leading slash: `root + selector` without one names a sibling of the root),
@@ -66,8 +65,9 @@ def gmPopulate (forbidden : List Str) (eaexts : List (Str × Str)) (defaultMime 
 /-- one gophermap line (as returned by `readline().decode(...)`, terminator included) -/
 def gmLine (forbidden : List Str) (eaexts : List (Str × Str)) (defaultMime : Str)
     (base : Str) (pop : Str → Option PopInfo) (line : Str) : Option Entry :=
-  if line.contains 9 then
-    let args := (splitOn 9 line).map strip
+  -- a link line has a tab and starts with a type character; anything else is shown as the text it carries
+  let args := (splitOn 9 line).map strip
+  if line.contains 9 && !(args.headD []).isEmpty then
     (gmLinkRaw base (args.headD []) ((args[1]?).getD []) args[2]? args[3]?).map
       (gmPopulate forbidden eaexts defaultMime pop)
   else some (infoEntry (strip line))
@@ -82,13 +82,11 @@ def gmParse (forbidden : List Str) (eaexts : List (Str × Str)) (defaultMime : S
     | _, _ => none
 
 /-- lines on which `prepare` cannot raise -/
-def WellFormedFields (a0 a1raw : Str) (portF : Option Str) : Bool :=
-  !a0.isEmpty && !(gmSelField a0 a1raw).isEmpty && (gmPort portF).isSome
+def WellFormedFields (a0 : Str) (portF : Option Str) : Bool :=
+  !a0.isEmpty && (gmPort portF).isSome
 
 def WellFormedLine (line : Str) : Bool :=
-  if line.contains 9 then
-    let args := (splitOn 9 line).map strip
-    WellFormedFields (args.headD []) ((args[1]?).getD []) args[3]?
-  else true
+  let args := (splitOn 9 line).map strip
+  if line.contains 9 && !(args.headD []).isEmpty then (gmPort args[3]?).isSome else true
 
 end Pyg
